@@ -52,7 +52,7 @@ def _build(o):
     if k == 'N':
         return common.make_net(o[1], o[2], o[3])
     if k == 'R':
-        return IPRange(IPAddress(o[2], o[1]), IPAddress(o[3], o[1]))
+        return common.make_range(o[1], o[2], o[3])
     return common.make_glob(o[3])
 
 
